@@ -472,7 +472,10 @@ class CircuitTemplate(AbstractBaseTemplate):
         # perform simulation via the graph representation
         #################################################
 
-        # create mapping between requested output variables and the current network variables
+        # create mapping between requested output variables and the current network variables (positions inside the
+        # backend variables: a state-vector layout recorded on this template by an earlier get_run_func or
+        # get_jacobian_func call does not apply to them)
+        net._state_var_indices = {}
         if type(outputs) is dict:
             output_map, outputs_ir = net.get_variable_positions(outputs)
         else:
